@@ -35,6 +35,7 @@ def plan(tier, seed):
     ns = 4 if q else 16
     for i in range(ns):
         specs.append({'part': 'slots', 'shard': i, 'of': ns, 'timeout': 900 if q else 14000, 'budget_s': 100 if q else 3000})
+    specs.append({'part': 'fast', 'shard': 0, 'of': 1, 'timeout': 900 if q else 14000, 'budget_s': 60 if q else 1500})
     if not q:
         for i in range(2):
             specs.append({'part': 'alu', 'shard': i, 'of': 2, 'flavour': 'asan', 'only_c': True, 'timeout': 14000})
@@ -287,14 +288,24 @@ def run_slots(shard, spec):
             shard.note_inconclusive('slot sweep stopped on its time budget before all 1792 slots were visited')
             break
 
+def run_fast(shard, spec):
+    """The Python simulator built with fast_ldir/fast_djnz (trace.py without -v/-m/-M, #SIM) runs LDIR/LDDR/DJNZ loops in one
+    call: its end state must be that of the same instruction iterated on the ordinary Python simulator and on the C one -
+    which the other parts of this check hold against the reference model. The workload is the one C06 uses for the same
+    comparison (boundary-aimed block copies and delay loops)."""
+    from vk.props import c06
+    c06.run_fast(shard, spec)
+
 def run(shard, spec):
-    {'alu': run_alu, 'slots': run_slots}[spec['part']](shard, spec)
+    {'alu': run_alu, 'slots': run_slots, 'fast': run_fast}[spec['part']](shard, spec)
 
 def finalize(agg, tier):
     c = agg['counters']
     probs = []
     if not c.get('monitor:steps_vs_reference'):
         probs.append('no step was compared with the reference')
+    if not c.get('monitor:fast_path_comparisons') or not c.get('observed:fast_path_multi_iteration'):
+        probs.append('the fast-path comparison observed nothing')
     return probs
 
 def replay(shard, rp):
